@@ -274,8 +274,12 @@ def gen_case(rng, dens=None):
         put(s[2], s[3], get(s[2], s[3]) + ' %(v1)')
     elif r < 0.23:
         inj = 'shape'
-        od, _ = layer_slot(doc, files, rng.choice(OPT_LAYERS))
-        od[rng.choice(['resourceManager', 'command', 'workflowAttributes'])] = rng.choice(['oops', 5, ['x'], True])
+        lay = rng.choice(OPT_LAYERS)
+        od, _ = layer_slot(doc, files, lay)
+        # (a component whose own workflowAttributes is not a dictionary crashes FlowIRConcrete.__init__ with a
+        #  TypeError before any layering happens: outside the modelled path, not generated)
+        keys = ['resourceManager', 'command'] + ([] if lay == 'comp' else ['workflowAttributes'])
+        od[rng.choice(keys)] = rng.choice(['oops', 5, ['x'], True])
     elif r < 0.26:
         inj = 'convert'
         od, _ = layer_slot(doc, files, rng.choice(['comp', 'ovp', 'ps', 'pg', 'dg']))
